@@ -506,6 +506,39 @@ def infnorm_case(ctx, LP, rng, peaked=False, given=None):
             raise core.InfraError("sup certificate undecided for inf_norm case %r" % (replay,))
 
 
+def alias_block(ctx, LP):
+    """every way of getting a polynomial FROM a polynomial, then an in-place step (`round_zeros`) on one of the two: the
+    other must still be what it was (a result sharing its coefficient buffer with an operand makes every LATER use of
+    either wrong; deterministic, in every run whatever the seed)"""
+    LPoly = LP.LPoly
+    zero = LPoly([])
+    makers = [("inversion", lambda p: ~p), ("negation", lambda p: -p), ("sum with zero", lambda p: p + zero), ("zero plus", lambda p: zero + p),
+              ("difference with zero", lambda p: p - zero), ("scalar multiple by 1", lambda p: p * 1.0), ("scalar 1 from the left", lambda p: 1.0 * p),
+              ("product with the constant 1", lambda p: p * LPoly([1.0], 0)), ("truncation to its own range", lambda p: LPoly.truncate(p, p.dmin, p.dmax)),
+              ("constructor from its attributes", lambda p: LPoly(p.coefs, p.dmin)), ("double inversion", lambda p: ~(~p)),
+              ("sum with itself negated twice", lambda p: -(-p))]
+    for coefs, dmin in (([0.25, -3.0, 0.5, 2.0], -3), ([0.5, 4.0], 1), ([2.0, 0.25, -0.125, 8.0, 0.5], -4), ([0.75], 0)):
+        for name, mk_ in makers:
+            for who in ("result", "operand"):
+                p0 = LPoly(list(coefs), dmin)
+                try:
+                    with core.quiet():
+                        r0 = mk_(p0)
+                        keep = (r0 if who == "operand" else p0)
+                        before = (np.asarray(keep.coefs).tobytes(), int(keep.dmin), bool(keep.iszero))
+                        (r0 if who == "result" else p0).round_zeros(1.0)          # in place: entries below 1 in modulus become 0
+                        after = (np.asarray(keep.coefs).tobytes(), int(keep.dmin), bool(keep.iszero))
+                except Exception as e:  # noqa
+                    ctx.count("alias-probe:raised:" + type(e).__name__)
+                    continue
+                ctx.count("alias-probe")
+                ctx.case(["alias", name, who, coefs, dmin], True, {"alias_probe": name, "rounded_in_place": who, "coefs": coefs, "dmin": dmin})
+                if before != after:
+                    ctx.violation("alias:" + name.replace(" ", "-"), "after %s, rounding the %s in place changes the %s as well: the two share their coefficients, "
+                                  "so one of them no longer denotes the polynomial the exact model says" % (name, who, "operand" if who == "result" else "result"),
+                                  {"op": "alias-probe", "how": name, "rounded_in_place": who, "coefs": coefs, "dmin": dmin})
+
+
 def run(tier, seed):
     ctx = core.Ctx(PROP, tier, seed, "proof", ["C09", "C09b", "Sup"])
     ctx.axioms = core.audit(ctx.modules)
@@ -521,6 +554,7 @@ def run(tier, seed):
         extra = parse_extra(c["op"], c.get("extra", {}))
         one_case(ctx, LP, c["op"], (c["A"]["coefs"], c["A"]["dmin"]), (c["B"]["coefs"], c["B"]["dmin"]), extra)
         ctx.count("corpus")
+    alias_block(ctx, LP)
     for _ in range(ncases):
         op, A, B, extra = gen_case(ctx.rng)
         one_case(ctx, LP, op, A, B, extra)
